@@ -49,3 +49,21 @@ package repository
 //@ func ConfigWrite.StoreTimestamp
 //@   modifies cursorStores
 //@   ensures cursorStores == old(cursorStores) + 1
+
+// Reading objects does not change the repository.
+//@ func RepoData.ReadCommit
+//@   modifies nothing
+//@ func RepoData.ReadTree
+//@   modifies nothing
+//@ func RepoData.ReadData
+//@   modifies nothing
+//@ func RepoData.ListCommits
+//@   modifies nothing
+//@ func RepoData.ListRefs
+//@   modifies nothing
+
+// Clocks live outside the modelled heap (their values are the subject of C05).
+//@ func RepoClock.Witness
+//@   modifies nothing
+//@ func RepoClock.Increment
+//@   modifies nothing
